@@ -16,7 +16,7 @@
                         to move at least one byte -- reaches that state. *)
 From Coq Require Import List NArith.
 From Muscle Require Import Gen.Consts Gw.GwBase Gw.TransportProofs
-  Gw.FrameModel Gw.FrameProofs Gw.FrameDefault
+  Gw.FrameModel Gw.FrameProofs Gw.FrameDefault Gw.ZlibModel Gw.ZlibProofs
   Gw.TextModel Gw.TextProofs Gw.RawModel Gw.RawProofs Gw.SlipModel Gw.SlipProofs.
 Import ListNotations.
 Local Open Scope N_scope.
@@ -81,6 +81,70 @@ Theorem C03_binary_codec_prefix_safety :
              s_dlv (sys_run fs_queue (f_do_output CS flat) (f_do_input CR unflat max_in) (f_sys0 CS CR cs0 cr0) evs) ++ tl.
 Proof. exact frame_prefix_safety. Qed.
 Print Assumptions C03_binary_codec_prefix_safety.
+
+(* ====================================================================== standard binary gateway, the
+   nine zlib encodings.  PREMISE (zlib is external code): for deflate/inflate streams that are in step
+   (zsync), inflating what deflate(Z_SYNC_FLUSH) produced gives the input back and leaves the streams
+   in step; the streams start in step.  Everything around zlib is modelled: the 32-byte threshold
+   below which a Message goes out uncompressed with a DEFAULT header and the codec untouched, the
+   ZLibCodec header (magic, raw length), codec creation per level, dependent / independent mode. *)
+Theorem C03_zlib_prefix_safety :
+  forall (DS IS : Type) (ds_init : N -> DS) (is_init : IS)
+         (deflate : DS -> bool -> bytes -> DS * bytes)
+         (inflate : IS -> bool -> bytes -> N -> IS * option bytes)
+         (oenc : N) (indep : bool) (max_in : N) (zsync : DS -> IS -> Prop),
+  (forall level, zsync (ds_init level) is_init) ->
+  (forall ds is b, zsync ds is -> b <> [] ->
+     exists is', inflate is indep (snd (deflate ds indep b)) (blen b) = (is', Some b) /\
+                 zsync (fst (deflate ds indep b)) is') ->
+  forall evs : list (event bytes),
+  Forall (ev_wf (z_wfb DS deflate indep max_in)) evs ->
+  exists tl, ev_msgs evs =
+             s_dlv (sys_run fs_queue (z_do_output DS ds_init deflate oenc indep)
+                      (z_do_input IS is_init inflate max_in) (z_sys0 DS IS) evs) ++ tl.
+Proof. exact z_prefix_safety. Qed.
+Print Assumptions C03_zlib_prefix_safety.
+
+Theorem C03_zlib_completeness :
+  forall (DS IS : Type) (ds_init : N -> DS) (is_init : IS)
+         (deflate : DS -> bool -> bytes -> DS * bytes)
+         (inflate : IS -> bool -> bytes -> N -> IS * option bytes)
+         (oenc : N) (indep : bool) (max_in : N) (zsync : DS -> IS -> Prop),
+  (forall level, zsync (ds_init level) is_init) ->
+  (forall ds is b, zsync ds is -> b <> [] ->
+     exists is', inflate is indep (snd (deflate ds indep b)) (blen b) = (is', Some b) /\
+                 zsync (fst (deflate ds indep b)) is') ->
+  forall evs : list (event bytes),
+  Forall (ev_wf (z_wfb DS deflate indep max_in)) evs ->
+  z_rem DS ds_init deflate oenc indep
+    (s_snd (sys_run fs_queue (z_do_output DS ds_init deflate oenc indep)
+              (z_do_input IS is_init inflate max_in) (z_sys0 DS IS) evs)) = [] ->
+  s_pipe (sys_run fs_queue (z_do_output DS ds_init deflate oenc indep)
+            (z_do_input IS is_init inflate max_in) (z_sys0 DS IS) evs) = [] ->
+  s_dlv (sys_run fs_queue (z_do_output DS ds_init deflate oenc indep)
+           (z_do_input IS is_init inflate max_in) (z_sys0 DS IS) evs) = ev_msgs evs.
+Proof. exact z_completeness. Qed.
+Print Assumptions C03_zlib_completeness.
+
+Theorem C03_zlib_fair_completion :
+  forall (DS IS : Type) (ds_init : N -> DS) (is_init : IS)
+         (deflate : DS -> bool -> bytes -> DS * bytes)
+         (inflate : IS -> bool -> bytes -> N -> IS * option bytes)
+         (oenc : N) (indep : bool) (max_in : N) (zsync : DS -> IS -> Prop),
+  (forall level, zsync (ds_init level) is_init) ->
+  (forall ds is b, zsync ds is -> b <> [] ->
+     exists is', inflate is indep (snd (deflate ds indep b)) (blen b) = (is', Some b) /\
+                 zsync (fst (deflate ds indep b)) is') ->
+  forall (evs : list (event bytes)) (rs : list (list (event bytes))),
+  Forall (ev_wf (z_wfb DS deflate indep max_in)) evs -> Forall round rs ->
+  (measure (z_rem DS ds_init deflate oenc indep) (fun _ => 0%nat)
+     (sys_run fs_queue (z_do_output DS ds_init deflate oenc indep)
+        (z_do_input IS is_init inflate max_in) (z_sys0 DS IS) evs) <= length rs)%nat ->
+  let st := sys_run fs_queue (z_do_output DS ds_init deflate oenc indep)
+              (z_do_input IS is_init inflate max_in) (z_sys0 DS IS) (evs ++ concat rs) in
+  quiet (z_rem DS ds_init deflate oenc indep) st /\ s_dlv st = ev_msgs evs.
+Proof. exact z_fair_completion. Qed.
+Print Assumptions C03_zlib_fair_completion.
 
 (* ====================================================================== plain text gateway;
    Messages = lists of lines; lines free of CR, LF, NUL (empty lines allowed); terminator CRLF,
@@ -252,4 +316,30 @@ Proof.
   split; [repeat constructor|]. split.
   - apply Exists_cons_tl. apply Exists_cons_hd. cbn. split; discriminate.
   - do 3 apply Exists_cons_tl. apply Exists_cons_hd. cbn. split; discriminate.
+Qed.
+
+(* the zlib premise is satisfiable (a trivial "stored" codec: deflate = identity), and a run under it
+   that mixes a compressed Message (>= 32 bytes with header) with one that stays uncompressed *)
+Definition ex_deflate (ds : unit) (_ : bool) (b : bytes) : unit * bytes := (ds, b).
+Definition ex_inflate (is : unit) (_ : bool) (d : bytes) (n : N) : unit * option bytes :=
+  (is, if blen d =? n then Some d else None).
+Definition ex_m3 : bytes := ex_m1 ++ le32 1 ++ le32 2 ++ le32 3 ++ le32 4.
+Definition ex_z_evs : list (event bytes) :=
+  [EQueue ex_m3; EQueue ex_m1; EQueue ex_m3; EOut ex_big [7; 30]; EIn ex_big [5; 1]; EOut ex_big [ex_big; ex_big; ex_big];
+   EIn ex_big [ex_big; ex_big; ex_big; ex_big; ex_big; ex_big; ex_big]].
+
+Example C03_zlib_nonvacuous :
+  (forall ds is b, True -> b <> [] ->
+     exists is', ex_inflate is false (snd (ex_deflate ds false b)) (blen b) = (is', Some b) /\ True) /\
+  Forall (ev_wf (z_wfb unit ex_deflate false ex_big)) ex_z_evs /\
+  let st := sys_run fs_queue (z_do_output unit (fun _ => tt) ex_deflate c_MUSCLE_MESSAGE_ENCODING_ZLIB_9 false)
+              (z_do_input unit tt ex_inflate ex_big) (z_sys0 unit unit) ex_z_evs in
+  z_rem unit (fun _ => tt) ex_deflate c_MUSCLE_MESSAGE_ENCODING_ZLIB_9 false (s_snd st) = [] /\
+  s_pipe st = [] /\ s_dlv st = [ex_m3; ex_m1; ex_m3].
+Proof.
+  split.
+  - intros ds is b _ _. exists is. unfold ex_inflate, ex_deflate. cbn [snd]. rewrite N.eqb_refl. auto.
+  - split.
+    + repeat constructor; unfold z_wfb, ex_deflate; cbn [snd]; vm_compute; repeat split; try discriminate; reflexivity.
+    + vm_compute. auto.
 Qed.
